@@ -101,6 +101,32 @@ func Record(name string, c Class, sample func() interface{}) {
 	}
 }
 
+// MergeStats folds statistics produced by another process (the generated-code
+// bed's test binary) into this process's evidence.
+func MergeStats(name string, evaluations, nontrivial int, labels map[string]int, samples []interface{}, extra map[string]int, hashes []string) {
+	mu.Lock()
+	defer mu.Unlock()
+	s := get(name)
+	s.Evaluations += evaluations
+	s.NonTrivial += nontrivial
+	for k, v := range labels {
+		s.Labels[k] += v
+	}
+	for k, v := range extra {
+		s.Extra[k] += v
+	}
+	for _, x := range samples {
+		if len(s.Samples) < maxSample {
+			s.Samples = append(s.Samples, x)
+		}
+	}
+	for _, h := range hashes {
+		var v uint64
+		fmt.Sscanf(h, "%x", &v)
+		s.hashes[v] = struct{}{}
+	}
+}
+
 // Count adds to a free-form counter of a check (e.g. excluded hazards).
 func Count(name, counter string, n int) {
 	mu.Lock()
